@@ -80,23 +80,46 @@ def controls(entries: list[dict], traces: list[dict]) -> list[tuple]:
 
 
 def campaign(ctx: Ctx, with_import: bool, strict_parts: list[str], jobs_filter=None):
+    phase = {}
+    ctx.note("phase_s", phase)
     points = L.base_run(ctx)
+    phase["base_run"] = round(ctx.elapsed(), 1)
     npoints = len(points)
     ctx.note("points_of_fault_free_run", [f"{p['k']}:{p['op']}:{'+'.join(p['tabs'] or [])}" for p in points])
     table = L.model_check(ctx, npoints, with_import, strict_parts) if jobs_filter is None else {}
+    phase["model_check"] = round(ctx.elapsed(), 1)
     jobs = L.make_jobs(ctx, points, with_import)
     if jobs_filter is not None:
         jobs = jobs_filter(jobs)
     entries = F.run_campaign(ctx.scratch, jobs, workers=8)
+    phase["real_runs"] = round(ctx.elapsed(), 1)
     traces = [L.entry_trace(e) for e in entries]
     return points, npoints, table, jobs, entries, traces
 
 
 def finish(ctx: Ctx, points, npoints, table, entries, traces, ctl, flags, keymap):
     verdicts, nuniq = L.validate(ctx, traces + [c[0] for c in ctl], npoints)
+    ctx.cov.get("phase_s", {})["trace_validation"] = round(ctx.elapsed(), 1)
     for (t, chk, text), v in zip(ctl, verdicts[len(traces):]):
         ctx.negative_control(bool(chk(v)), text)
     verdicts = verdicts[:len(traces)]
+    # Runs the as-built model does not accept (never on the unchanged tree): is the code ahead of the
+    # model by one of the proposed repairs?  Try the model with each repair switch, then with all.
+    drift = [i for i, v in enumerate(verdicts) if not v["acc"]]
+    explained: dict = {}
+    for fx in ("10000", "01000", "00100", "00010", "00001", "11111"):
+        todo = [i for i in drift if not verdicts[i]["acc"]]
+        if not todo:
+            break
+        vv, _ = L.validate(ctx, [traces[i] for i in todo], npoints, fixes=fx, what=f"fix{fx}")
+        for i, x in zip(todo, vv):
+            if x["acc"]:
+                x["variant"] = fx
+                verdicts[i] = x
+                explained[fx] = explained.get(fx, 0) + 1
+    ctx.note("asbuilt_drift", {"runs_not_accepted_by_as_built_model": len(drift),
+                               "accepted_with_repair_switches(Subtree,Companion,Pop,NodeExit,Nested)": explained,
+                               "unexplained": sum(1 for i in drift if not verdicts[i]["acc"])})
     nruns = sum(1 for e in entries if e["role"] != "import")
     ctx.count_eval(len(entries))
     ctx.count_impl_trace(len(entries))
@@ -132,18 +155,10 @@ def finish(ctx: Ctx, points, npoints, table, entries, traces, ctl, flags, keymap
     if table:
         idle = L.idle_lookup(table, entries)
         ctx.note("spec_to_code_idle_states", idle)
-    stats["asbuilt_drift"] = stats.pop("drift")
+    stats.pop("drift", None)
     ctx.note("verdict_stats", stats)
-    if stats["asbuilt_drift"]:
-        # which repair switch explains the runs the as-built model rejects?
-        idx = [i for i, v in enumerate(verdicts) if not v["acc"]]
-        expl = {}
-        for fx in ("11111", "10000", "01000", "00100", "00010", "00001"):
-            vv, _ = L.validate(ctx, [traces[i] for i in idx], npoints, fixes=fx, what=f"fix{fx}")
-            expl[fx] = sum(1 for x in vv if x["acc"])
-        ctx.note("drift_explained_by_repair_switches(Subtree,Companion,Pop,NodeExit,Nested)", expl)
     smp = [e for e in entries if e["role"] in ("fault", "crash")][:2] + [e for e in entries if len(e["hist"]) > 2][:1]
-    for e, in [(x,) for x in smp]:
+    for e in smp:
         ctx.sample({"injection": e["inj"], "history": e["hist"], "outcome": e["rec"]["outcome"],
                     "points": len(e["rec"]["points"])})
     return verdicts, stats
